@@ -19,9 +19,14 @@ class Generator(CodeGenerator):
         return list(CONFIG["records"])
 
     def register_checks(self, verifier):
+        epoch = CONFIG.get("epoch", 0)
         for ci, category in enumerate(CONFIG["checks"]):
             def make(ci, category):
                 def check(self_, fcp, node):
+                    if CONFIG.get("epoch", 0) != epoch:
+                        # a check registered by an earlier generate() on the same verifier: it keeps being consulted and
+                        # accepts (its verdicts belong to the earlier call); not part of this call's accounting
+                        return Ok(())
                     k = sum(1 for c in CONFIG["calls"] if c[0] == ci) if True else 0
                     CONFIG["calls"].append((ci, k))
                     if CONFIG["verdict"](ci, category, k):
